@@ -225,4 +225,12 @@ func runC20(c *Ctx) {
 		c.Check(len(hm) == 1 && p.ArgDesc(hm[0], 1) == "param#1" && Glob("func:crypto/sha256.New", p.ArgDesc(hm[0], 0)), "R20.5", FuncName(f)+" :: HMAC-SHA256 keyed by the master key", fpos(f), "yes", "MAC construction changed")
 
 	}
+
+	// ---------- error discipline (E8)
+	errDisciplineFor(c, "C20")
+
+	// ---------- R20.7 failure atomicity
+	c.Rule("R20.7", "E8", "key storage: no method writes the storage and can still fail afterwards — a failed Initialize / AddKeySlot / DeleteKeySlot leaves the slots and the tag as they were", 2)
+	c.FailureAtomicity("R20.7", []string{pkgKS}, nil, pkgRRuntime, 4)
+
 }
